@@ -317,7 +317,8 @@ Lemma chunks_wf : forall f delta s chunks d,
   W.line_chunks f delta = Ok (chunks, d) -> bounds h s -> 0 <= s_line s + delta < two64z ->
   prog_wf_from h s (map (tr ver) chunks) = true /\
   srun h s (map (tr ver) chunks) = ([], s_add_line (delta - d) s) /\
-  Forall (insn_enc_ok e) chunks /\ Forall nosym chunks.
+  Forall (insn_enc_ok e) chunks /\ Forall nosym chunks /\
+  bounds h (s_add_line (delta - d) s) /\ (-9223372036854775808 <= d < 9223372036854775808).
 Proof.
   induction f as [|f IH]; intros delta s chunks d Hc Hb Hl; [discriminate|].
   rewrite P2.line_chunks_S in Hc.
@@ -325,28 +326,35 @@ Proof.
   - apply bind_ok in Hc as ([c1 d1] & Hc1 & Hc). inversion Hc; subst chunks d. clear Hc.
     assert (Hb1 : bounds h (s_add_line 9223372036854775807 s)).
     { destruct Hb as [Ha Hl0]. unfold bounds, s_add_line, two64z in *. cbn. lia. }
-    destruct (IH _ (s_add_line 9223372036854775807 s) _ _ Hc1 Hb1) as (W1 & R1 & E1 & N1).
+    destruct (IH _ (s_add_line 9223372036854775807 s) _ _ Hc1 Hb1) as (W1 & R1 & E1 & N1 & B1 & D1).
     { unfold s_add_line; cbn. lia. }
     cbn [map tr prog_wf_from srun exec_spec fst].
     rewrite (advline_step e l h HM s 9223372036854775807) by
       (try lia; try exact Hb; destruct Hb as [_ Hl0]; unfold two64z in *; lia).
-    rewrite W1, R1. split; [reflexivity|]. split.
-    + rewrite s_add_line_add. f_equal. f_equal. lia.
-    + split; constructor; try assumption; cbn; lia.
+    rewrite W1, R1.
+    assert (Es : s_add_line (delta - 9223372036854775807 - d1) (s_add_line 9223372036854775807 s)
+                 = s_add_line (delta - d1) s) by (rewrite s_add_line_add; f_equal; lia).
+    rewrite Es in *. split; [reflexivity|]. split; [reflexivity|].
+    split; [constructor; [cbn; lia|assumption]|]. split; [constructor; [exact I|assumption]|].
+    split; assumption.
   - destruct (Z.ltb_spec delta (-9223372036854775808)) as [Hlt|Hge].
     + apply bind_ok in Hc as ([c1 d1] & Hc1 & Hc). inversion Hc; subst chunks d. clear Hc.
       assert (Hb1 : bounds h (s_add_line (-9223372036854775808) s)).
       { destruct Hb as [Ha Hl0]. unfold bounds, s_add_line, two64z in *. cbn. lia. }
-      destruct (IH _ (s_add_line (-9223372036854775808) s) _ _ Hc1 Hb1) as (W1 & R1 & E1 & N1).
+      destruct (IH _ (s_add_line (-9223372036854775808) s) _ _ Hc1 Hb1) as (W1 & R1 & E1 & N1 & B1 & D1).
       { unfold s_add_line; cbn. lia. }
       cbn [map tr prog_wf_from srun exec_spec fst].
       rewrite (advline_step e l h HM s (-9223372036854775808)) by
         (try lia; try exact Hb; destruct Hb as [_ Hl0]; unfold two64z in *; lia).
-      rewrite W1, R1. split; [reflexivity|]. split.
-      * rewrite s_add_line_add. f_equal. f_equal. lia.
-      * split; constructor; try assumption; cbn; lia.
+      rewrite W1, R1.
+      assert (Es : s_add_line (delta - -9223372036854775808 - d1) (s_add_line (-9223372036854775808) s)
+                   = s_add_line (delta - d1) s) by (rewrite s_add_line_add; f_equal; lia).
+      rewrite Es in *. split; [reflexivity|]. split; [reflexivity|].
+      split; [constructor; [cbn; lia|assumption]|]. split; [constructor; [exact I|assumption]|].
+      split; assumption.
     + inversion Hc; subst chunks d. cbn [map prog_wf_from srun]. rewrite Z.sub_diag, s_add_line_0.
-      repeat split; constructor.
+      split; [reflexivity|]. split; [reflexivity|]. split; [constructor|]. split; [constructor|].
+      split; [exact Hb|lia].
 Qed.
 
 End WithHeader2.
